@@ -6,6 +6,7 @@ import (
 	"math/rand"
 	"strconv"
 	"strings"
+	"sync"
 	"sync/atomic"
 	"time"
 
@@ -320,7 +321,7 @@ func c01Cuts(rng *rand.Rand, variant string, b []byte, bounds []int) []int {
 
 func checkC01(r *verdict.Run) {
 	r.Rule = "sequences of well-formed commands (+ sentinel ECHO) are sent to a fresh emulator once command-by-command (reference) and again with the same bytes cut differently (pipeline, every byte, inside CRLF, inside length headers, around 8192, in writes of exactly 8192 bytes, random, mid-command; every other sequence is padded to a whole number of 8192-byte blocks); " +
-		"oracle: exactly one strictly parsed reply per command, same bytes as the reference (canonical tree for HGETALL/SMEMBERS), nothing after the sentinel; commands pipelined in several segments behind a blocking command (BLPOP/BRPOP/BLMOVE/BLMPOP, ended by a push or a timeout) must be answered like the command-by-command run; hostile byte strings must round-trip in every role; error replies must stay on one line. " +
+		"oracle: exactly one strictly parsed reply per command, same bytes as the reference (canonical tree for HGETALL/SMEMBERS), nothing after the sentinel; commands pipelined in several segments behind a blocking command (BLPOP/BRPOP/BLMOVE/BLMPOP, ended by a push or a timeout) must be answered like the command-by-command run; six connections reading their own 8 MiB values at the same time (one of them slowly) must each receive exactly their bytes; hostile byte strings must round-trip in every role; error replies must stay on one line. " +
 		"distinct = (variant, protocol, command, reply class) + (role, string class)"
 	nseq := tierPick(r, 24, 400)
 	maxLen := tierPick(r, 12, 40)
@@ -457,6 +458,7 @@ func checkC01(r *verdict.Run) {
 		}
 	})
 	c01Blocked(r, pool, tierPick(r, 20, 300))
+	c01Cross(r, tierPick(r, 3, 12))
 	c01Binary(r, pool)
 	c01Errors(r, pool)
 	r.Assume("loopback TCP with TCP_NODELAY and 20 us - 2 ms pauses between writes stands in for network segmentation; the cxn:read hook reports how many server reads really ended mid-command")
@@ -777,5 +779,101 @@ func c01Blocked(r *verdict.Run, pool []string, nseq int) {
 			}
 		}
 		r.Distinct(fmt.Sprintf("blocked-pipeline/%s/%d-commands", blk[0], len(seq.cmds)))
+	})
+}
+
+// c01Cross: what one connection receives must not depend on what the emulator sends to other connections at the
+// same time. Each of several connections owns a large value with its own byte pattern and reads it again and again
+// (one of them slowly, so that its reply is written in many pieces); every reply must be exactly the stored bytes.
+func c01Cross(r *verdict.Run, runs int) {
+	parallel(runs, 4, func(run int) {
+		c, err := startChild(false)
+		if err != nil {
+			r.Inconclusive("cannot start child")
+			return
+		}
+		defer c.Stop()
+		e, err := startEmu(c, "")
+		if err != nil {
+			r.Inconclusive("infra: " + err.Error())
+			return
+		}
+		nconn := 6
+		size := 8 << 20
+		vals := make([][]byte, nconn)
+		setup, err := e.dial()
+		if err != nil {
+			return
+		}
+		setup.Timeout = 30 * time.Second
+		for i := range vals {
+			// (all values are larger than the socket buffers, so a write to a client that does not read stalls half-way,
+			// and of similar size, so that a buffer recycled from one reply would be overwritten over its whole length)
+			n := 8<<20 + i*1000
+			v := make([]byte, n)
+			for j := range v {
+				v[j] = byte('a' + i) // connection-specific pattern
+				if j%97 == 0 {
+					v[j] = byte(j / 97)
+				}
+			}
+			vals[i] = v
+			if _, err := setup.Do("SET", fmt.Sprintf("big%d", i), string(v)); err != nil {
+				r.Inconclusive("cross: setup failed: " + err.Error())
+				return
+			}
+		}
+		setup.Close()
+		var wg sync.WaitGroup
+		var bad atomic.Int64
+		var reads atomic.Int64
+		var mu sync.Mutex
+		example := ""
+		for i := 0; i < nconn; i++ {
+			wg.Add(1)
+			go func(i int) {
+				defer wg.Done()
+				cn, err := e.dial()
+				if err != nil {
+					return
+				}
+				defer cn.Close()
+				cn.Timeout = 60 * time.Second
+				rounds := 8
+				if i == 0 {
+					rounds = 2
+				}
+				for round := 0; round < rounds && bad.Load() == 0; round++ {
+					if err := cn.SendCmd("GET", fmt.Sprintf("big%d", i)); err != nil {
+						return
+					}
+					if i == 0 {
+						time.Sleep(400 * time.Millisecond) // the slow reader: meanwhile the others get several replies of their own
+					}
+					v, _, err := cn.ReadValue(60 * time.Second)
+					reads.Add(1)
+					if err != nil || !bytes.Equal(v.Str, vals[i]) {
+						bad.Add(1)
+						mu.Lock()
+						if example == "" {
+							at := 0
+							for at < len(v.Str) && at < len(vals[i]) && v.Str[at] == vals[i][at] {
+								at++
+							}
+							example = fmt.Sprintf("connection %d round %d: GET big%d returned %d bytes (stored %d), first difference at offset %d, error %v", i, round, i, len(v.Str), len(vals[i]), at, err)
+						}
+						mu.Unlock()
+						return
+					}
+				}
+			}(i)
+		}
+		wg.Wait()
+		r.Eval(int(reads.Load()))
+		r.Count("cross_connection_large_reads", reads.Load())
+		if bad.Load() > 0 {
+			r.Report("c01/cross-connection/reply-bytes-differ", fmt.Sprintf("%d connections each read their own %d MiB value concurrently (one of them slowly): %s", nconn, size>>20, example), nil)
+		}
+		r.Distinct(fmt.Sprintf("cross/%dMiB", size>>20))
 	})
 }
